@@ -101,6 +101,9 @@ func Main(t *testing.T, prop string) {
 		"flood.Flooder+routing.Manager nodes under virtual time; every frame sent, every handler verdict and the final tables, seen caches and counters are compared with the model; " +
 		"non-trivial = at least one advertisement was processed by a node other than its origin; distinct = distinct (n, schedule)"
 	mon := Monitors(prop)
+	// FLOODNET_FULL=1: write every frame and table entry into cases.v (slow to
+	// elaborate; for debugging a digest mismatch)
+	full := os.Getenv("FLOODNET_FULL") != ""
 	var coq []string
 	one := func(cs *Case, gen Gen) {
 		obs := RunCase(t, cs, gen)
@@ -124,7 +127,11 @@ func Main(t *testing.T, prop string) {
 		for _, f := range mon(cs, obs) {
 			c.Fail(f.Sig, "["+cs.Name+"] "+f.Detail, cs)
 		}
-		coq = append(coq, CoqCase(cs, obs))
+		if full {
+			coq = append(coq, CoqCase(cs, obs))
+		} else {
+			coq = append(coq, CoqDCase(cs, obs))
+		}
 		if os.Getenv("FLOODNET_DUMP") != "" {
 			b, _ := json.MarshalIndent(map[string]any{"case": cs, "obs": obs}, "", " ")
 			os.WriteFile(filepath.Join(c.OutDir, "dump_"+cs.Name+".json"), b, 0o644)
@@ -164,5 +171,9 @@ func Main(t *testing.T, prop string) {
 			c.Res.Extra["exhaustive"] = "all connected labelled topologies on 2..5 nodes (one seeded schedule each)"
 		}
 	}
-	c.WriteCasesV("cases.v", CoqFile(coq))
+	if full {
+		c.WriteCasesV("cases.v", CoqFile(coq))
+	} else {
+		c.WriteCasesV("cases.v", CoqDFile(coq))
+	}
 }
